@@ -210,6 +210,48 @@ def random_single(ctx, R, rng, kind, n):
     ctx.count('guard_acquires', g.acquires)
 
 
+def boundary_queries(ctx, R):
+    """queries whose argument is exactly the last occurrence fetched so far (the 10th, 20th ... member of a partly filled
+    cache), asked right after a partial iteration: after / before / between / contains / index around the fill level"""
+    for kind in ('rule', 'set'):
+        for n in (11, 20, 21, 30):
+            L = list(make(R, kind, n, False))
+            for consumed in (1, 5, 10, 11, 19, 20):
+                if consumed >= n:
+                    continue
+                for q in ('after', 'after-inc', 'before', 'before-inc', 'between', 'contains', 'index', 'xafter'):
+                    obj = make(R, kind, n, True)
+                    guard(obj)
+                    list(itertools.islice(iter(obj), consumed))
+                    fill = len(obj._cache) if obj._cache is not None else consumed
+                    for pos in sorted({fill - 1, fill, consumed - 1} & set(range(len(L)))):
+                        x = L[pos]
+                        nxt = L[pos + 1] if pos + 1 < len(L) else None
+                        prv = L[pos - 1] if pos > 0 else None
+                        if q == 'after':
+                            got, exp = outcome(lambda: obj.after(x)), ('ok', nxt)
+                        elif q == 'after-inc':
+                            got, exp = outcome(lambda: obj.after(x, inc=True)), ('ok', x)
+                        elif q == 'before':
+                            got, exp = outcome(lambda: obj.before(x)), ('ok', prv)
+                        elif q == 'before-inc':
+                            got, exp = outcome(lambda: obj.before(x, inc=True)), ('ok', x)
+                        elif q == 'between':
+                            got, exp = outcome(lambda: obj.between(x, L[-1], inc=False)), ('ok', L[pos + 1:-1])
+                        elif q == 'contains':
+                            got, exp = outcome(lambda: x in obj), ('ok', True)
+                        elif q == 'index':
+                            got, exp = outcome(lambda: obj[pos]), ('ok', x)
+                        else:
+                            got, exp = outcome(lambda: list(itertools.islice(obj.xafter(x), 2))), ('ok', L[pos + 1:pos + 3])
+                        ctx.ev()
+                        ctx.count('boundary_queries')
+                        ctx.distinct('boundary|%s|%d|%d|%s' % (kind, n, consumed, q))
+                        if got != exp:
+                            ctx.violation('query-diverges', {'scenario': 'boundary-query', 'kind': kind, 'n': n, 'consumed': consumed, 'query': q, 'position': pos},
+                                          '%s at the occurrence in position %d with %d fetched: got %s, uncached gives %s' % (q, pos, fill, brief(got), brief(exp)))
+
+
 def hash_list(x):
     import hashlib
     return hashlib.sha1(repr(x).encode()).hexdigest()[:12]
@@ -436,6 +478,8 @@ def run(ctx):
         for n in (2, 11, 20):
             sweep_two(ctx, R, 'nested', n)
             ctx.count('nested_sweeps')
+    if ctx.shard == 0:
+        boundary_queries(ctx, R)
     for _ in range(150 if ctx.tier == 'quick' else 2500):
         random_single(ctx, R, rng, rng.choice(['rule', 'set', 'rule-until', 'nested']), rng.choice(LENGTHS))
     BUDGET[0] = None
@@ -497,7 +541,7 @@ def run(ctx):
 def floors(agg, tier):
     c, out = agg['counters'], []
     for k, n in (('single_sweep_runs', 800 if tier == 'quick' else 1500), ('single_random_runs', 400), ('scheduled_runs', 800 if tier == 'quick' else 20000),
-                 ('systematic_runs', 300), ('runs_with_lock_contention', 50), ('runs_with_suspended_iterators', 40), ('free_running_rounds', 60), ('guard_acquires', 1000),
+                 ('systematic_runs', 300), ('runs_with_lock_contention', 50), ('runs_with_suspended_iterators', 40), ('boundary_queries', 500), ('free_running_rounds', 60), ('guard_acquires', 1000),
                  ('distinct_interleavings', 500 if tier == 'quick' else 10000)):
         if c.get(k, 0) < n:
             out.append('%s only %d (< %d)' % (k, c.get(k, 0), n))
@@ -510,7 +554,9 @@ def replay(ctx, case):
     from dateutil import rrule as R
     import random
     sc = case.get('scenario')
-    if sc == 'two-iterators':
+    if sc == 'boundary-query':
+        boundary_queries(ctx, R)
+    elif sc == 'two-iterators':
         L = list(make(R, case['kind'], case['n'], False))
         obj = make(R, case['kind'], case['n'], True)
         guard(obj)
